@@ -53,14 +53,34 @@ def attempt_alphabet(avail_total, reward):
     return [(a, f) for a in sorted(amts) if a >= 1 for f in (0, 1, 2)]
 
 
-def check_attempt(cs, head, wallet_keys_order, spent_record, used, amount, fee):
-    """one call of the real create_spend_transaction on a fresh Wallet object carrying `spent_record`.
+def wallet_fingerprint(w):
+    """everything the wallet object carries (whatever attributes the implementation keeps on it), order-insensitive"""
+    def norm(v):
+        if isinstance(v, dict):
+            return sorted((repr(k), norm(x)) for k, x in v.items())
+        if isinstance(v, (set, frozenset)):
+            return sorted(repr(x) for x in v)
+        if isinstance(v, (list, tuple)):
+            return [norm(x) for x in v]
+        return repr(v)
+    return repr(sorted((k, norm(v)) for k, v in vars(w).items() if k not in ('keypairs',)))
+
+
+def check_attempt(cs, head, wallet_keys_order, spent_record, used, amount, fee, wallet=None):
+    """one call of the real create_spend_transaction on a Wallet object carrying `spent_record`: a fresh one, or (wallet=)
+    a deep copy of the long-lived object the caller carries along its path (then whatever else the implementation keeps on
+    the object is carried along too; the copy after the attempt is returned in check_attempt.last_wallet).
     returns (violations, tx or None, new spent record)"""
+    import copy
     from skepticoin.wallet import Wallet, create_spend_transaction
     from skepticoin import consensus
     from skepticoin.datatypes import OutputReference
-    w = Wallet({k.pub: k.priv for k in wallet_keys_order}, [], {})
-    w.spent_transaction_outputs = {OutputReference(h, i) for (h, i) in spent_record}
+    if wallet is not None:
+        w = copy.deepcopy(wallet)
+    else:
+        w = Wallet({k.pub: k.priv for k in wallet_keys_order}, [], {})
+        w.spent_transaction_outputs = {OutputReference(h, i) for (h, i) in spent_record}
+    check_attempt.last_wallet = w
     before = set(spent_record)
     wouts = wallet_outputs(head)
     available = sum(v for r, v in wouts.items() if r not in used)
@@ -176,36 +196,40 @@ def deep_world(arg):
     cs0 = CoinState.empty().add_block_no_validation(root.block).add_block(n1.block, n1.ts)
     keys = [K[0], K[1]] if korder == 0 else [K[1], K[0]]
     # node, coinstate, record, used, pending txs, trace, spends confirmed on the current branch
-    start = (n1, cs0, frozenset(), frozenset(), (), (), ())
-    seen = {(n1.bid, frozenset(), frozenset(), ())}
+    from skepticoin.wallet import Wallet
+    w0 = Wallet({k.pub: k.priv for k in keys}, [], {})
+    start = (n1, cs0, frozenset(), frozenset(), (), (), (), w0)
+    seen = {(n1.bid, frozenset(), frozenset(), (), wallet_fingerprint(w0))}
     frontier = [start]
     stats = {'states': 1, 'transitions': 0, 'success': 0, 'insufficient': 0, 'confirmed': 0, 'reorganisations': 0}
     bad = []
     for d in range(depth):
         nxt = []
-        for node, cs, rec, used, pending, trace, conf in frontier:
+        for node, cs, rec, used, pending, trace, conf, wal in frontier:
             wouts = wallet_outputs(node)
             vals = sorted(set(wouts.values()))
             avail = sum(v for r, v in wouts.items() if r not in used)
             amts = sorted({a for a in (vals[:1] + vals[-1:] + [avail, max(1, avail - 1)]) if a >= 1})
             ops = [('spend', a, 0) for a in amts] + [('confirm', j) for j in range(min(2, len(pending)))]
+            ops += [('confirm-refund', j) for j in range(min(1, len(pending)))]
             if conf and not any(t[0] == 'reorg' for t in trace):
                 ops.append(('reorg',))
             for op in ops:
                 stats['transitions'] += 1
                 tr = trace + (op,)
                 if op[0] == 'spend':
-                    viol, tx, after = check_attempt(cs, node, keys, rec, used, op[1], op[2])
+                    viol, tx, after = check_attempt(cs, node, keys, rec, used, op[1], op[2], wallet=wal)
+                    wal2 = check_attempt.last_wallet
                     for key, what in viol:
                         if len(bad) < 8:
                             bad.append((key, what, tr))
                     if tx is None:
                         stats['insufficient'] += 1
-                        s2 = (node, cs, frozenset(after), used, pending, tr, conf)
+                        s2 = (node, cs, frozenset(after), used, pending, tr, conf, wal2)
                     else:
                         stats['success'] += 1
                         ins = frozenset((i.output_reference.hash, i.output_reference.index) for i in tx.inputs)
-                        s2 = (node, cs, frozenset(after), used | ins, pending + (tx,), tr, conf)
+                        s2 = (node, cs, frozenset(after), used | ins, pending + (tx,), tr, conf, wal2)
                     if viol:
                         continue
                 elif op[0] == 'reorg':
@@ -223,18 +247,35 @@ def deep_world(arg):
                     if cs2.current_chain_hash != cur.bid:
                         continue
                     stats['reorganisations'] += 1
-                    s2 = (cur, cs2, rec, used, pending + conf, tr, ())
+                    s2 = (cur, cs2, rec, used, pending + conf, tr, (), wal)
                 else:
                     tx = pending[op[1]]
+                    kw = {}
+                    if op[0] == 'confirm-refund':
+                        # the confirming block's reward pays every wallet key exactly what the confirmed spend took from it
+                        # (a re-used mining key), the rest goes to the miner
+                        took = {}
+                        for i in tx.inputs:
+                            r = (i.output_reference.hash, i.output_reference.index)
+                            if r not in node.utxo:
+                                took = None
+                                break
+                            v, pk = node.utxo[r]
+                            took[pk] = took.get(pk, 0) + v
+                        if took is None:
+                            continue          # (conflicts with an already confirmed spend)
+                        outs = [(v, [k for k in keys if k.pub == pk][0]) for pk, v in sorted(took.items())]
+                        outs.append((refmodel.subsidy(node.height + 1) - sum(v for v, _ in outs), K[5]))
+                        kw = {'cb_outs': outs}
                     try:
-                        b = world.assemble(node, [tx], K[5], node.ts + 120)
+                        b = world.assemble(node, [tx], K[5], node.ts + 120, **kw)
                         n2 = world.Node(b, node, path=node.path + ('c',))
                         cs2 = cs.add_block(b, n2.ts)
                     except Exception:
                         continue          # (conflicts with an already confirmed spend: cannot be mined)
                     stats['confirmed'] += 1
-                    s2 = (n2, cs2, rec, used, pending[:op[1]] + pending[op[1] + 1:], tr, conf + (tx,))
-                k = (s2[0].bid, s2[2], s2[3], tuple(enc.txid(t) for t in s2[4]))
+                    s2 = (n2, cs2, rec, used, pending[:op[1]] + pending[op[1] + 1:], tr, conf + (tx,), wal)
+                k = (s2[0].bid, s2[2], s2[3], tuple(enc.txid(t) for t in s2[4]), wallet_fingerprint(s2[7]))
                 if k not in seen:
                     seen.add(k)
                     stats['states'] += 1
@@ -350,7 +391,7 @@ def run(ctx):
                 "successful spends) with every (amount 1..total+1, fee 0..2) at every state, attempts per path <= %d, "
                 "confirmations <= %d; plus %d worlds explored to %d operations with a reduced amount alphabet (smallest / largest "
                 "output, everything available, one less), confirmation of ANY still unconfirmed earlier spend as a separate "
-                "operation, and one reorganisation onto a branch without the confirmed spends; plus wallets holding 1100 outputs (13 attempts each: few, 255/256, all but one, all)" % (3 if ctx.quick else 4, ws[0][5], ws[0][6], len(dws), dws[0][3]),
+                "operation (also by a block whose reward refunds the spending keys), one reorganisation onto a branch without the confirmed spends, ONE wallet object carried along each path; plus wallets holding 1100 outputs (13 attempts each: few, 255/256, all but one, all)" % (3 if ctx.quick else 4, ws[0][5], ws[0][6], len(dws), dws[0][3]),
     })
 
 
